@@ -25,6 +25,7 @@ variant = {
                    'tail': 'ok'|'ErrA'|...,      # outcome after the list is exhausted
                    'label': str,                 # switch nodes: the label they return
                    'rec_n': int,                 # destinations: ask next_iteration while iteration tag < rec_n
+                   'rec_data': 'zero',           # destinations: pass the falsy additional_data 0 (default: iteration+1)
                    'value': 'prov'|'none'|'zero'|'empty'|'false'|'list' } }
 }
 """
